@@ -14,6 +14,10 @@ CLAIMED = {
    text="every conversion among the 12 arithmetic types that involves a floating type, + - * / and the six comparisons, negation and truth tests on float/double/long double, for ALL operand values incl. NaN, infinities, signed zeros, denormals: z3 (FP theory, x87 modelled as FP(15,64) with the control word the code loads) proves the emitted SSE/x87 sequences yield the C11/IEEE result; floating constants for a boundary list plus solver-found double-rounding witnesses",
    note="trusts z3's FP theory, the asm executor (validated against the CPU each run); NaN payloads unspecified; literal text->binary (strtold) not encoded beyond the listed spellings",
    technique="SMT (z3 floating-point + bit-vectors) over symbolic execution of the emitted SSE/x87 code"),
+ "C16": dict(engine=E2, level="model_checking",
+   text="thread-modular linearizability: the emitted sequence of every op=, ++/--, atomic_fetch_*, atomic_exchange and compare-exchange on 1/2/4/8-byte _Atomic objects (static, via pointer, struct member) is executed symbolically against ARBITRARY interference (each read of the shared cell is a fresh symbol = any number of other threads); z3 decides that every completed path contains exactly one successful lock-prefixed step of the right width whose written value is f(value observed by that step), that the returned value is consistent with it, that failed compare-exchanges write nothing and store the observed value into *expected; violations are replayed with real threads",
+   note="assumes each x86 instruction is a step and locked RMW instructions are indivisible; TSO store buffering not modelled (all writers are locked); up to 2 failed CAS rounds unrolled, longer paths cut and shown write-free",
+   technique="SMT over symbolic execution of emitted atomic sequences under arbitrary interference (rely/guarantee style)"),
  "C20": dict(engine=E2, level="model_checking",
    text="for every statement/expression form x 11 result types (incl. long double and four struct shapes): the emitted code is executed symbolically between two marker calls and z3 decides that the stack pointer and the x87 register-stack depth are identical before and after, for single statements and for one iteration of for/while/do bodies and for-increments (an inductive step); value-producing forms are checked by using the value; x87 over/underflow is a violation",
    note="trusts z3 and the asm executor; external callees assumed psABI-conforming; alloca/VLA exempt; asm statements outside",
